@@ -90,7 +90,7 @@ type env struct {
 }
 
 // buildSet makes a set valid at node `at` (proofs of that node).
-func (e *env) buildSet(g *rng.R, at *chaingen.Node, kind string) ([]types.V2Transaction, []poolsim.Meta) {
+func (e *env) buildSet(g *rng.R, at, toN *chaingen.Node, kind string) ([]types.V2Transaction, []poolsim.Meta) {
 	w := e.w
 	if at.Height+1 < w.Env.Net.HardforkV2.AllowHeight {
 		return nil, nil
@@ -219,6 +219,71 @@ func (e *env) buildSet(g *rng.R, at *chaingen.Node, kind string) ([]types.V2Tran
 		if kind == "block-parent-child-only" {
 			// the creator of the ephemeral input is not part of the set that is rebased
 			set = []types.V2Transaction{child}
+		}
+	case "multi-confirm":
+		// members that different blocks of the path confirm (taken from those blocks, their proofs
+		// moved back to `at` with the independent ledger), plus one that is never confirmed; any order
+		var path []*chaingen.Node
+		if _, app := poolsim.TreePath(at, toN); len(app) >= 2 && app[0].Parent == at {
+			path = app
+		} else {
+			// any chain of descendants of `at`
+			for x := at; len(x.Children) > 0 && len(path) < 4; {
+				var next *chaingen.Node
+				for _, c := range x.Children {
+					if c.ChainValid() {
+						next = c
+					}
+				}
+				if next == nil {
+					break
+				}
+				path = append(path, next)
+				x = next
+			}
+		}
+		all := in.All
+		usedIn := map[types.SiacoinOutputID]bool{}
+		for _, blk := range path {
+			var cands []types.V2Transaction
+			for _, t := range blk.Block.V2Transactions() {
+				c := t.DeepCopy()
+				ok := len(c.SiacoinInputs)+len(c.SiafundInputs)+len(c.FileContractRevisions)+len(c.FileContractResolutions) > 0
+				for _, el := range elems(&c) {
+					se, known := all[el.key]
+					if !known || el.se.LeafIndex == types.UnassignedLeafIndex {
+						ok = false
+						break
+					}
+					*el.se = se.Copy()
+				}
+				// the elements must still be the unspent ones of `at`
+				if ok && in.N.FullState.Elements.ValidateTransactionElements(c) == nil {
+					cands = append(cands, c)
+				}
+			}
+			if len(cands) > 0 && (len(set) < 3) {
+				c := cands[g.Intn(len(cands))]
+				set = append(set, c)
+				for _, sci := range c.SiacoinInputs {
+					usedIn[sci.Parent.ID] = true
+				}
+			}
+		}
+		if len(set) < 2 {
+			return nil, nil
+		}
+		e.st["multi-confirm-sets"]++
+		for _, f := range free {
+			if !usedIn[f.ID] {
+				set = append(set, w.Env.V2Spend(at.FullState, f, one, one, w.Env.Payees[0], 0, 5))
+				break
+			}
+		}
+		// any order
+		for i := len(set) - 1; i > 0; i-- {
+			j := g.Intn(i + 1)
+			set[i], set[j] = set[j], set[i]
 		}
 	case "builder":
 		b := w.Env.NewBuilder(chaingen.Blocks(w.T.Path(at)))
@@ -512,7 +577,7 @@ func runCase(cs poolsim.Case, coqWanted bool) (coqOut string, failOut *failure, 
 			if i := bytes.IndexByte([]byte(kind), '/'); i >= 0 {
 				kind, corrupt = stp.Flavor[:i], stp.Flavor[i+1:]
 			}
-			set, metas := e.buildSet(g, fromN, kind)
+			set, metas := e.buildSet(g, fromN, toN, kind)
 			if len(set) == 0 {
 				st["update-skipped"]++
 				continue
@@ -995,7 +1060,7 @@ func runCase(cs poolsim.Case, coqWanted bool) (coqOut string, failOut *failure, 
 	return coq, fail, st, r
 }
 
-var setKinds = []string{"fresh", "eph-chain", "eph-chain", "mixed", "block-child", "block-child", "block-parent", "block-parent-child-only", "block-parent-child-only", "builder"}
+var setKinds = []string{"fresh", "eph-chain", "eph-chain", "mixed", "block-child", "block-child", "block-parent", "block-parent-child-only", "block-parent-child-only", "multi-confirm", "builder"}
 var corruptions = []string{"proof", "leaf", "unknown-basis", "basis-height"}
 
 // genPlan: submit the whole tree (every branch), rebase sets between every pair of known
@@ -1028,6 +1093,26 @@ func genPlan(g *rng.R, t *chaingen.Tree, pairsBudget int) []poolsim.Step {
 			fl += "/" + corruptions[g.Intn(len(corruptions))]
 		}
 		plan = append(plan, poolsim.Step{Kind: "update", Op: mgrsim.Op{Nodes: []int{p[0], p[1]}}, Flavor: fl, Seed: g.U64()})
+	}
+	// members confirmed by different blocks: from a block to its descendants 2..4 below
+	var deep [][2]int
+	for _, b := range t.Nodes {
+		if !b.ChainValid() {
+			continue
+		}
+		a := b
+		for d := 0; d < 4 && a.Parent != nil; d++ {
+			a = a.Parent
+			if d >= 1 {
+				deep = append(deep, [2]int{a.Idx, b.Idx})
+			}
+		}
+	}
+	for k, pi := range g.Perm(len(deep)) {
+		if k >= 8 {
+			break
+		}
+		plan = append(plan, poolsim.Step{Kind: "update", Op: mgrsim.Op{Nodes: []int{deep[pi][0], deep[pi][1]}}, Flavor: "multi-confirm", Seed: g.U64()})
 	}
 	// equal indices
 	plan = append(plan, poolsim.Step{Kind: "update", Op: mgrsim.Op{Nodes: []int{1, 1}}, Flavor: "fresh", Seed: g.U64()})
